@@ -915,6 +915,8 @@ def _digests_before(ctx: Ctx, cer: gw.Ceremony) -> Digests:
     for i, (spec, psbt_in) in enumerate(zip(cer.inputs, request.inputs, strict=True)):
         is_tr = spec.wallet.kind == "taproot"
         legal = [t for t in gw.SIGHASH_TYPES[1:] if not (is_tr and t & 3 == sig_hash.SINGLE and i >= len(tx.vout))]
+        if is_tr:
+            legal += [sig_hash.DEFAULT] * 2  # asked for by name: an explicit 0 is a type like the others, not "read the field"
         own = psbt_in.sig_hash_type if psbt_in.sig_hash_type is not None else (sig_hash.DEFAULT if is_tr else sig_hash.ALL)
         site = spec.wallet.kind
         for lh in _leaf_hashes(cer, spec):
